@@ -23,17 +23,17 @@ def assert_repo_code():
 
 
 def drive(coro):
-    """Run a tool coroutine to completion outside any event loop.  Tool bodies have no await today; a bare
-    yield (``await asyncio.sleep(0)``) is resumed at once -- in a process of its own that is all it means.
-    Awaiting a real future cannot be driven here and is a harness error, never a verdict."""
+    """Run a tool coroutine to completion the way a server process of its own would: on a private deterministic event loop
+    (SimLoop: virtual time; run_in_executor / asyncio.to_thread execute inline in this thread, so file operations stay
+    attributed to the calling actor).  Tool bodies have no await today, in which case this is a single loop step."""
+    from .loop import SimLoop
+    from .tape import Tape
+
+    loop = SimLoop(Tape(values=[]))
     try:
-        while True:
-            y = coro.send(None)
-            if y is not None:
-                coro.close()
-                raise AwaitedError(f"tool coroutine awaited {y!r}; only SimLoop can drive that")
-    except StopIteration as e:
-        return e.value
+        return loop.run_until_complete(coro)
+    finally:
+        loop.close()
 
 
 from .seam import HarnessError  # noqa: E402
@@ -105,3 +105,66 @@ def run_cli(args: list[str], stdin_text: str | None = None) -> dict:
         _echo_tls.buf = None
         sys.stdin = old_stdin
     return {"exit": code, "out": buf}
+
+
+class ForkError(HarnessError):
+    pass
+
+
+def in_fork(fn, timeout: float = 120.0):
+    """Run fn() in a forked child of THIS interpreter; returns its JSON-able result (exceptions become ForkError)."""
+    import json
+    import select
+    import signal
+    import time
+
+    r, w = os.pipe()
+    pid = os.fork()
+    if pid == 0:
+        code = 0
+        try:
+            os.close(r)
+            try:
+                out = {"ok": fn()}
+            except BaseException as e:  # noqa: BLE001
+                import traceback
+
+                out = {"err": f"{type(e).__name__}: {e}", "tb": traceback.format_exc()[-2000:]}
+            data = json.dumps(out).encode()
+            view = memoryview(data)
+            while view:
+                n = os.write(w, view)
+                view = view[n:]
+            os.close(w)
+        except BaseException:  # noqa: BLE001
+            code = 3
+        finally:
+            os._exit(code)
+    os.close(w)
+    chunks = []
+    deadline = time.time() + timeout
+    try:
+        while True:
+            left = deadline - time.time()
+            if left <= 0:
+                os.kill(pid, signal.SIGKILL)
+                raise ForkError("forked child timed out")
+            rl, _, _ = select.select([r], [], [], min(left, 5.0))
+            if not rl:
+                continue
+            b = os.read(r, 1 << 16)
+            if not b:
+                break
+            chunks.append(b)
+    finally:
+        os.close(r)
+        try:
+            os.waitpid(pid, 0)
+        except ChildProcessError:
+            pass
+    if not chunks:
+        raise ForkError("forked child produced no output")
+    out = json.loads(b"".join(chunks))
+    if "err" in out:
+        raise ForkError(out["err"] + "\n" + out.get("tb", ""))
+    return out["ok"]
